@@ -1,6 +1,7 @@
 package chain
 
 import (
+	"math"
 	"crypto/ecdsa"
 	"fmt"
 	"math/big"
@@ -743,6 +744,23 @@ func (v *View) Resolve(op Op) *TxMeta {
 				r0, r1 = r1, r0
 			} else if !(types.CoinID(p.Coin0) == c0 && types.CoinID(p.Coin1) == c1) {
 				continue
+			}
+			if r0.Sign() > 0 && op.v(1).Mode == 6 {
+				// pool price times M per-mille, quantised to a 3-bit mantissa so that many orders share
+				// exactly the same price (equal-price priority by id); amounts are made exact multiples
+				f, _ := new(big.Float).Quo(new(big.Float).SetInt(r1), new(big.Float).SetInt(r0)).Float64()
+				f = f * float64(op.v(1).M) / 1000
+				if f > 0 && !math.IsInf(f, 0) {
+					m, e := math.Frexp(f)
+					num := int64(math.Round(m * 8)) // 4..8
+					shift := 3 - e
+					if shift > 0 {
+						sellv = new(big.Int).Lsh(new(big.Int).Rsh(sellv, uint(shift)), uint(shift))
+						buyv = new(big.Int).Rsh(new(big.Int).Mul(sellv, big.NewInt(num)), uint(shift))
+					} else {
+						buyv = new(big.Int).Lsh(new(big.Int).Mul(sellv, big.NewInt(num)), uint(-shift))
+					}
+				}
 			}
 			if r0.Sign() > 0 && op.v(1).Mode == 1 {
 				buyv = new(big.Int).Mul(sellv, r1)
